@@ -16,13 +16,22 @@ class Unsupported(Exception):
     pass
 
 
-def param_field(e, params):
-    """member chain rooted at one of the two parameters -> (param index, 'a.b')"""
+def param_field(e, params, env=None):
+    """member chain rooted at one of the two parameters -> (param index, 'a.b'); locals that alias a
+    parameter (or a member chain of it) are looked through"""
     e = strip_copies(strip_casts(e))
     path = []
-    while e is not None and e.get('k') in ('member', 'unresolved') and e.get('base') is not None:
-        path.append(e['name'])
-        e = strip_copies(strip_casts(e['base']))
+    hops = 0
+    while e is not None and hops < 12:
+        hops += 1
+        if e.get('k') in ('member', 'unresolved') and e.get('base') is not None:
+            path.append(e['name'])
+            e = strip_copies(strip_casts(e['base']))
+            continue
+        if e.get('k') == 'ref' and env and e.get('d') in env and e.get('d') not in params:
+            e = strip_copies(strip_casts(env[e['d']]))
+            continue
+        break
     if e is not None and e.get('k') == 'ref' and e.get('d') in params:
         return params[e['d']], '.'.join(reversed(path))
     return None
@@ -35,8 +44,14 @@ class Cmp:
             raise Unsupported('comparator with %d parameters' % len(f['params']))
         self.params = {f['params'][0]['d']: 0, f['params'][1]['d']: 1}
         self.fields = []
+        self.env = {}
+        for st in walk_stmts(f['body']):
+            if st['k'] == 'decl':
+                for v in st['vars']:
+                    if v.get('init') is not None:
+                        self.env[v['d']] = v['init']
         for e in walk_all_exprs(f['body']):
-            pf = param_field(e, self.params)
+            pf = param_field(e, self.params, self.env)
             if pf is not None and pf[1] and pf[1] not in self.fields:
                 # keep only maximal chains (a.b, not a)
                 self.fields.append(pf[1])
@@ -45,8 +60,22 @@ class Cmp:
             raise Unsupported('no fields compared')
 
     # ---- evaluation under sigma: field -> relation of (first operand's field) vs (second operand's field)
+    def threeway(self, e, sigma):
+        """relation computed by a three-way comparison (std::string::compare, <=>) or a local holding one"""
+        e = strip_copies(strip_casts(e))
+        if e is None:
+            return None
+        if e.get('k') == 'ref' and e.get('d') in self.env and e.get('d') not in self.params:
+            return self.threeway(self.env[e['d']], sigma)
+        if e.get('k') == 'call' and (e.get('callee') or '').split('::')[-1] == 'compare' and e.get('obj') is not None and len(e['args']) == 1:
+            return self.rel(e['obj'], e['args'][0], sigma)
+        if e.get('k') in ('bin', 'call') and e.get('op') == '<=>':
+            a, b = (e['l'], e['r']) if e.get('k') == 'bin' else ((e['obj'], e['args'][0]) if e.get('obj') is not None else (e['args'][0], e['args'][1]))
+            return self.rel(a, b, sigma)
+        return None
+
     def rel(self, a, b, sigma):
-        pa, pb = param_field(a, self.params), param_field(b, self.params)
+        pa, pb = param_field(a, self.params, self.env), param_field(b, self.params, self.env)
         if pa is None or pb is None or pa[1] != pb[1] or pa[0] == pb[0]:
             raise Unsupported('comparison of %s with %s is not field-wise' % (show(a), show(b)))
         r = sigma[pa[1]]
@@ -61,6 +90,8 @@ class Cmp:
             return bool(e['v'])
         if k == 'int':
             return bool(e['v'])
+        if k == 'ref' and e.get('d') in self.env and e.get('d') not in self.params:
+            return self.ev(self.env[e['d']], sigma)
         if k == 'un' and e['op'] == '!':
             return not self.ev(e['e'], sigma)
         if k == 'bin' and e['op'] == '&&':
@@ -80,6 +111,15 @@ class Cmp:
                 a, b = e['args'][0], e['args'][1]
         if op is not None:
             ta, tb = strip_copies(strip_casts(a)), strip_copies(strip_casts(b))
+            # sign test of a three-way result:  c < 0, c == 0, 0 < c ...
+            for x, y, flip in ((a, b, False), (b, a, True)):
+                ty = strip_casts(y)
+                if ty is not None and ty.get('k') == 'int' and ty['v'] == 0:
+                    tw = self.threeway(x, sigma)
+                    if tw is not None:
+                        sign = {'<': -1, '=': 0, '>': 1}[tw]
+                        l, r2 = (sign, 0) if not flip else (0, sign)
+                        return {'<': l < r2, '>': l > r2, '<=': l <= r2, '>=': l >= r2, '==': l == r2, '!=': l != r2}[op]
 
             def tuple_maker(x):
                 if x.get('k') != 'call':
@@ -115,7 +155,7 @@ class Cmp:
             if self.ev(s['c'], sigma):
                 return self.run(s['t'], sigma)
             return self.run(s['e'], sigma) if s.get('e') else None
-        if k == 'empty':
+        if k in ('empty', 'decl'):
             return None
         raise Unsupported('statement %s' % k)
 
